@@ -175,6 +175,12 @@ class ConstEval:
           if isinstance(v, (Sym, EnumMember)):
             raise NotConst("symbolic isinstance")
           return isinstance(v, tuple(types[t.id] for t in spec))
+      if fn in ("floor", "ceil", "math.floor", "math.ceil") and len(args) == 1 and not e.keywords:
+        import math
+        v = self._ev(m, args[0], cls, env)
+        if isinstance(v, (Sym, EnumMember)) or not isinstance(v, (int, float, Fraction)):
+          raise NotConst("symbolic floor/ceil")
+        return (math.floor if fn.endswith("floor") else math.ceil)(v)
       if fn in ("int", "float", "str", "len", "bytes", "bool", "abs", "min", "max", "round") and not e.keywords:
         vals = [self._ev(m, a, cls, env) for a in args]
         if any(isinstance(v, (Sym, EnumMember)) for v in vals):
@@ -333,6 +339,9 @@ class FuncEval:
         self._bind(st.targets[0], v, env)
       elif isinstance(st, ast.AnnAssign) and st.value is not None:
         self._bind(st.target, ce.ev(f.module, st.value, f.cls, env), env)
+      elif isinstance(st, ast.AugAssign) and isinstance(st.target, (ast.Name, ast.Attribute)):
+        cur = ast.copy_location(ast.BinOp(left=ast.fix_missing_locations(ast.parse(ast.unparse(st.target), mode="eval").body), op=st.op, right=st.value), st)
+        self._bind(st.target, ce.ev(f.module, ast.fix_missing_locations(cur), f.cls, env), env)
       elif isinstance(st, ast.If):
         t = ce.ev(f.module, st.test, f.cls, env)
         self._block(ce, f, st.body if t else st.orelse, env)
